@@ -90,6 +90,8 @@ pub struct SimNet {
     pub rr_ids: Mutex<Vec<String>>,
     /// destinations whose sends stall for the given number of ms before the router accepts them
     pub stall: Mutex<HashMap<String, u64>>,
+    /// a dial to a silent node never completes (a dead address: only the caller's timeout ends it) instead of failing at once
+    pub hang_silent_dials: AtomicBool,
 }
 
 pub fn op_name(op: &DhtNetworkOperation) -> String {
@@ -125,6 +127,7 @@ impl SimNet {
             refuse_unknown_dials: AtomicBool::new(false),
             rr_ids: Mutex::new(vec![]),
             stall: Mutex::new(HashMap::new()),
+            hang_silent_dials: AtomicBool::new(false),
         })
     }
     pub fn add_scripted(&self, id: &str, addr: &str, behaviour: Behaviour) {
@@ -281,6 +284,19 @@ impl VerifRouter for SimNet {
             return Err(transport_err(format!("connection refused: {address}")));
         };
         if silent {
+            if self.hang_silent_dials.load(Ordering::SeqCst) {
+                // the guard records how long the caller kept waiting (its timeout drops this future)
+                struct DialGuard<'a> { net: &'a SimNet, from: String, to: String, t0: Instant }
+                impl<'a> Drop for DialGuard<'a> {
+                    fn drop(&mut self) {
+                        let ms = self.t0.elapsed().as_millis() as u64;
+                        self.net.trace.lock().unwrap().push(TraceEv { at_ms: self.net.now_ms(), from: self.from.clone(), to: self.to.clone(), is_request: false,
+                            op: "DialEnd".into(), msg_id: ms.to_string(), delivered: false, result: None, nodes: vec![] });
+                    }
+                }
+                let _g = DialGuard { net: self, from: from.to_string(), to: address.to_string(), t0: Instant::now() };
+                tokio::time::sleep(Duration::from_secs(3600)).await;
+            }
             return Err(transport_err(format!("connection timed out: {address}")));
         }
         if let Some(node) = target {
@@ -304,12 +320,18 @@ pub struct Node {
 /// address other nodes dial (purely virtual: the router resolves it).
 pub async fn spawn_node(net: &Arc<SimNet>, name: &str, virt_addr: SocketAddr, request_timeout: Duration, k: usize)
     -> anyhow::Result<Node> {
+    spawn_node_ct(net, name, virt_addr, request_timeout, request_timeout, k).await
+}
+
+/// as `spawn_node`, with a transport connection timeout different from the DHT request timeout
+pub async fn spawn_node_ct(net: &Arc<SimNet>, name: &str, virt_addr: SocketAddr, request_timeout: Duration, connection_timeout: Duration, k: usize)
+    -> anyhow::Result<Node> {
     let node_config = NodeConfig::builder().peer_id(name.to_string()).listen_port(0).ipv6(false).build()?;
     let transport = Arc::new(TransportHandle::new(TransportConfig {
         peer_id: name.to_string(),
         listen_addr: node_config.listen_addr,
         enable_ipv6: false,
-        connection_timeout: request_timeout,
+        connection_timeout,
         stale_peer_threshold: Duration::from_secs(3600),
         max_connections: node_config.max_connections,
         production_config: None,
